@@ -14,9 +14,15 @@ other than the public ones is looked up by name.  The sequences of a sample trac
 constructor, the list-valued attributes of the track) are presented to the engine as displays of their elements, and
 the engine is told that a slice of a display is a display and that pyproj works element by element on sequences, so
 loops and comprehensions over way-points, legs or the cumulative index unroll (`list.append` on a local or on a
-field included); a loop over anything else, or an object changed in place in another way, is UNDECIDED.  What cannot
-be evaluated is UNDECIDED; a difference from the reference is a violation only when it is recognised as a specific
-mistake.
+field included).  What the engine does not follow is executed statement by statement on the model values instead
+(ordinary assignments, loops, conditions, in-place growth of lists, with / try without an exception): generator
+functions (consumed eagerly: the value of a call is the list of what it yields, of a @contextmanager function the
+one value it yields; a generator that stores to an object is UNDECIDED), functions with a loop over something whose
+length is known only on the sample track or with running state changed in place, and functions that fill a helper
+object step by step through its methods.  An object constructed on a path is one object wherever the path mentions
+it, and a method of a model object that the engine left as a call runs at its place among the stores of the path.
+What cannot be evaluated either way is UNDECIDED; a difference from the reference is a violation only when it is
+recognised as a specific mistake.
 
 R1  argument roles of every geodesic call (T-ROLE): pyproj.Geod.inv takes
     (lon1, lat1, lon2, lat2), fwd takes (lon, lat, azimuth, distance); wrappers
@@ -60,7 +66,9 @@ R6  results are the reference: location(d) inside leg k is (component [0],
     `[i]` is way-point i with the azimuth of leg i (modulo 360: the range is
     R2's statement); total_distance /
     waypoint_distance(i) are the running sums from 0 of the leg lengths
-    (component [2] of the inverse geodesic over consecutive way-points);
+    (component [2] of the inverse geodesic over consecutive way-points; a
+    value that is the sum of only some of the legs is reported as such: the
+    running distance was set where it has to be increased, or stops early);
     len() is the number of way-points given (so the stored way-points, the leg
     azimuths and the cumulative index describe one sequence, also when a fix is
     repeated); great_circle(a, b) is the track [a, b]; Mission.gc_distance is
@@ -93,7 +101,7 @@ import re
 from ..algebra import normal_form
 from ..loader import AnalysisError, dotted_name
 from ..astutil import MUTATING_METHODS, ancestors, call_name, calls_in, norm, single_def_value, stores_to, walk_no_nested
-from ..resolve import callers_of, closure
+from ..resolve import callers_of, closure, resolve_call, resolve_class_call
 from ..roles import GEOD_SIG, check_geod_call, expr_role, geod_calls, ident_role, wrapper_signature
 
 GT = 'trajectories/ground_track.py'
@@ -454,6 +462,19 @@ def rule_legs(ctx, covered=frozenset()):
 # violation only when it is recognised as a specific mistake (wrong leg, wrong origin, missing normalisation ...).
 
 
+class _Site:
+    """where a geodesic call evaluated by statement-by-statement execution is written (the two fields of an engine event
+    that the rules read)"""
+    __slots__ = ('fi', 'node')
+
+    def __init__(self, fi, node):
+        self.fi, self.node = fi, node
+
+
+def _is_generator(fi) -> bool:
+    return any(isinstance(x, (ast.Yield, ast.YieldFrom)) for x in walk_no_nested(fi.node))
+
+
 class _Unk(Exception):
     """the model cannot evaluate a construct"""
 
@@ -684,6 +705,45 @@ def _engine_class():
                             return st.store(key, ast.List(elts=list(cur.elts) + list(val.args[0].elts), ctx=ast.Load()))
             return super()._mutation(src, val, st)
 
+        def _subst(self, e, st, bound=frozenset()):
+            # a comprehension / lambda the engine keeps as an expression (its iterable is not a display): the engine
+            # replaces the free locals by their values; a field stored earlier on the path is read back as the value
+            # stored, like everywhere else (the field of a name bound by the comprehension itself is left alone)
+            out = super()._subst(e, st, bound)
+            heap = st.heap
+            if not heap or not self.read_back:
+                return out
+            from ..astutil import assigned_names
+
+            class H(ast.NodeTransformer):
+                def __init__(self, bound):
+                    self.bound = set(bound)
+
+                def visit_Attribute(self, n):
+                    if isinstance(n.ctx, ast.Load):
+                        r = n
+                        while isinstance(r, (ast.Attribute, ast.Subscript)):
+                            r = r.value
+                        if not (isinstance(r, ast.Name) and r.id in self.bound):
+                            v = heap.get(canon(n))
+                            if isinstance(v, ast.expr):
+                                return v            # (the stored node itself: constructor calls are known by identity)
+                    return self.generic_visit(n)
+
+                def visit_Lambda(self, n):
+                    a = n.args
+                    names = {x.arg for x in a.posonlyargs + a.args + a.kwonlyargs} | \
+                        ({a.vararg.arg} if a.vararg else set()) | ({a.kwarg.arg} if a.kwarg else set())
+                    return H(self.bound | names).generic_visit(n)
+
+                def _comp(self, n):
+                    names = set()
+                    for g in n.generators:
+                        names |= set(assigned_names(g.target))
+                    return H(self.bound | names).generic_visit(n)
+                visit_ListComp = visit_SetComp = visit_GeneratorExp = visit_DictComp = _comp
+            return H(bound).visit(out)
+
         def run_seeded(self, fi, self_cls, args, heap):
             """Engine.run with object fields known on entry (`heap`: canonical text of the field -> value)"""
             from .c06 import Fr, St, _const, _name
@@ -711,6 +771,10 @@ class _World:
         self.node_event: dict = {}
         self.quiet = 0
         self.stack: list = []
+        self._mutating: dict = {}
+        self.call_memo: dict = {}       # value of a call that was evaluated at its place in the path (by source node)
+        self.frame_fi = None            # the function whose statements are being executed on model values, if any
+        self.fuel = 0
 
     # ------------------------------------------------------------ functions
     def outcomes(self, fi, cls, lists, seqs=()):
@@ -784,7 +848,34 @@ class _World:
             for a, n in seqs:
                 for i in range(n):
                     env[f'{fi.params[0]}__{a}__{i}'] = self_obj.f[a][i]
-        kind, v, st = self.select(self.outcomes(fi, cls, lists, seqs), env, fi)
+        if _is_generator(fi):
+            ys = self.run_concrete(fi, env)
+            if any(d.split('.')[-1].split('(')[0] == 'contextmanager' for d in fi.decorators()):
+                # the engine binds the `as` name of a with statement to the context expression: the value of a call of a
+                # @contextmanager function is what the with statement binds, the one value it yields
+                if len(ys) != 1:
+                    raise _Unk(f'{fi.qualname}: a context manager that does not yield exactly once')
+                return ys[0]
+            return ys
+        try:
+            kind, v, st = self.select(self.outcomes(fi, cls, lists, seqs), env, fi)
+            self._no_change_in_place(fi, st)
+            self._no_opaque_mutation(fi, env, st)
+        except _Unk as ex:
+            # the paths of the function cannot be told apart symbolically (a loop over something whose length is known
+            # only on the sample track, running state the engine does not follow): on model values the statements can
+            # still be executed one by one
+            try:
+                return self.run_concrete(fi, env)
+            except _Unk as ex2:
+                raise _Unk(f'{ex}; statement by statement: {ex2}') from None
+        saved_frame, self.frame_fi = self.frame_fi, None
+        try:
+            return self._finish(fi, env, kind, v, st)
+        finally:
+            self.frame_fi = saved_frame
+
+    def _no_change_in_place(self, fi, st):
         # a container changed in place is followed by the engine only when it is a local display; a field of an object
         # changed in place (or through a local alias of it) is not
         for e in st.events:
@@ -795,14 +886,65 @@ class _World:
                     and isinstance(st.heap.get(canon(r)), ast.List)
                 if not grown_field and (not isinstance(r, ast.Name) or any(hv is e.target for hv in st.heap.values())):
                     raise _Unk(f'{fi.qualname}: `{canon(e.node)[:50]}` changes an object in place')
-        saved = self.node_event
+
+    def _changes_state(self, meth) -> bool:
+        """meth, or something it reaches, stores to a field / an element or changes a container it did not make"""
+        key = (meth.file, meth.qualname)
+        if key not in self._mutating:
+            res = False
+            for g in closure(self.prog, [meth]):
+                if _is_generator(g) or (g is not meth and g.name in ('__init__', '__post_init__', '__new__')):
+                    continue            # (a generator that stores is refused where it is executed; a constructor fills a new object)
+                local = {a for t, _, _ in stores_to(g.node) for a in ([t.id] if isinstance(t, ast.Name) else [])} - set(g.params)
+                if any(isinstance(t, (ast.Attribute, ast.Subscript)) for t, _, _ in stores_to(g.node)):
+                    res = True
+                for c in calls_in(g.node):
+                    if isinstance(c.func, ast.Attribute) and c.func.attr in MUTATING_METHODS and not (
+                            isinstance(c.func.value, ast.Name) and c.func.value.id in local):
+                        res = True
+                    if call_name(c).split('.')[-1] in ('setattr', '__setattr__'):
+                        res = True
+            self._mutating[key] = res
+        return self._mutating[key]
+
+    def _no_opaque_mutation(self, fi, env, st):
+        """The expressions of a path are evaluated when their value is needed.  That is the value the program computes as
+        long as the objects they read do not change along the path - which the engine guarantees for what it inlines
+        (stores are read back).  A method of a model object that the engine left as a call and that changes the object
+        (a helper object filled step by step) breaks it: the function is then executed statement by statement."""
+        for e in st.events:
+            if e.kind != 'call' or not isinstance(e.value, ast.Call) or not isinstance(e.value.func, ast.Attribute) \
+                    or e.value.func.attr in GEOD_SIG or e.value.func.attr in MUTATING_METHODS:
+                continue
+            recv = e.value.func.value
+            k = self.ctor_class(recv) if isinstance(recv, ast.Call) else None
+            if k is None:
+                self.quiet += 1
+                try:
+                    o = self.ev(recv, env)
+                    k = o.k if isinstance(o, _Obj) else None
+                except (_Unk, _Raised):
+                    k = None
+                finally:
+                    self.quiet -= 1
+            meth = _method(k, e.value.func.attr)
+            if meth is not None and self._changes_state(meth):
+                raise _Unk(f'{fi.qualname}: `{canon(e.node)[:50]}` changes an object through a method the engine does not follow')
+
+    def _finish(self, fi, env, kind, v, st):
+        saved, saved_memo = self.node_event, self.call_memo
         self.node_event = dict(saved)
         self.node_event.update({id(e.value): e for e in st.events if e.kind == 'call' and e.value is not None})
+        self.call_memo = dict(saved_memo)
         try:
             if kind == 'raise':
                 raise _Raised(canon(v)[:80])
-            val = self.ev(v, env)
             effects = []
+
+            def flush():
+                for tgt, x in effects:
+                    self.assign(tgt, x, env)
+                del effects[:]
             for e in st.events:
                 if e.kind == 'store':
                     effects.append((e.target, self.ev(e.value, env)))
@@ -811,17 +953,217 @@ class _World:
                         and isinstance(e.args[1].value, str):
                     effects.append((ast.Attribute(value=e.args[0], attr=e.args[1].value, ctx=ast.Load()),
                                     self.ev(e.args[2], env)))
+                elif e.kind == 'ctor' and isinstance(e.value, ast.Call) and id(e.value) not in self.call_memo:
+                    # an object constructed on the path is one object wherever the engine's expressions mention it (a helper
+                    # object that is filled step by step and read afterwards)
+                    try:
+                        self.call_memo[id(e.value)] = self.ev(e.value, env)
+                    except (_Unk, _Raised):
+                        pass                # (reported when, and if, the value is needed)
+                elif e.kind == 'call' and isinstance(e.value, ast.Call) and isinstance(e.value.func, ast.Attribute) \
+                        and e.value.func.attr not in GEOD_SIG and id(e.value) not in self.call_memo:
+                    # a method of a model object that the engine did not inline (a generator, a recursion): it runs at this
+                    # point of the path, on the object as the stores before it have left it, and once
+                    self.quiet += 1
+                    try:
+                        recv = self.ev(e.value.func.value, env)
+                    except (_Unk, _Raised):
+                        recv = None
+                    finally:
+                        self.quiet -= 1
+                    if isinstance(recv, _Obj) and _method(recv.k, e.value.func.attr) is not None:
+                        flush()
+                        try:
+                            self.call_memo[id(e.value)] = self.ev(e.value, env)
+                        except _Unk:
+                            pass            # (reported when, and if, the value is needed)
+            val = self.ev(v, env)
             # a field that was grown in place holds, at the end of the path, the display the engine kept for it
             for key, hv in st.heap.items():
                 if isinstance(hv, ast.List) and re.fullmatch(r'\w+\.\w+', key) and key.split('.')[0] in env:
                     nme, attr = key.split('.')
                     effects.append((ast.Attribute(value=ast.Name(id=nme, ctx=ast.Load()), attr=attr, ctx=ast.Load()),
                                     self.ev(hv, env)))
-            for tgt, x in effects:
-                self.assign(tgt, x, env)
+            flush()
             return val
         finally:
-            self.node_event = saved
+            self.node_event, self.call_memo = saved, saved_memo
+
+    # ------------------------------------------------------------ statement-by-statement execution
+    # Generator functions (which the engine does not inline) and functions whose paths the engine cannot separate are
+    # executed on the model values themselves: locals in `env`, sequences as Python lists (so growing one in place is
+    # seen through every name bound to it, as in the program), objects as _Obj, every expression through ev().  A
+    # generator is consumed eagerly: its value is the list of what it yields (next() on it is not modelled, and a
+    # generator that changes objects its consumer reads between two yields would be evaluated in another order - the
+    # latter needs a store to a non-local object, which is refused inside a generator).  Whatever is not modelled
+    # is _Unk.
+    _LIST_OPS = ('append', 'extend', 'insert', 'pop', 'clear', 'reverse', 'sort', 'remove')
+
+    def run_concrete(self, fi, env):
+        gen = _is_generator(fi)
+        if any(isinstance(x, (ast.Global, ast.Nonlocal, ast.AsyncWith, ast.AsyncFor, ast.Await, ast.Delete,
+                              ast.Match, ast.Lambda) + ((ast.TryStar,) if hasattr(ast, 'TryStar') else ())) for x in walk_no_nested(fi.node)) \
+                or any(isinstance(x, (ast.FunctionDef, ast.AsyncFunctionDef, ast.ClassDef)) for b in fi.node.body for x in ast.walk(b)):
+            raise _Unk(f'{fi.qualname}: a statement form that is not executed on model values')
+        ys = [] if gen else None
+        top = self.frame_fi is None and self.fuel <= 0
+        if top:
+            self.fuel = 20000
+        saved, self.frame_fi = self.frame_fi, fi
+        try:
+            r = self._exec(fi.node.body, env, ys)
+        finally:
+            self.frame_fi = saved
+            if top:
+                self.fuel = 0
+        if r is not None and r[0] != 'return':
+            raise _Unk(f'{fi.qualname}: {r[0]} outside a loop')
+        if gen:
+            return ys
+        return r[1] if r is not None else None
+
+    def _exec(self, stmts, env, ys):
+        for s in stmts:
+            r = self._exec1(s, env, ys)
+            if r is not None:
+                return r
+        return None
+
+    def _store(self, t, val, env, ys):
+        if isinstance(t, ast.Name):
+            env[t.id] = val
+        elif isinstance(t, (ast.Tuple, ast.List)):
+            if any(isinstance(x, ast.Starred) for x in t.elts) or not isinstance(val, (list, tuple)):
+                raise _Unk('unpacking')
+            if len(val) != len(t.elts):
+                raise _Raised('ValueError: unpacking')
+            for x, y in zip(t.elts, val):
+                self._store(x, y, env, ys)
+        elif isinstance(t, (ast.Attribute, ast.Subscript)):
+            if ys is not None:
+                raise _Unk(f'a generator that stores to {canon(t)[:40]}')
+            self.assign(t, val, env)
+        else:
+            raise _Unk(f'store to {canon(t)[:40]}')
+
+    def _exec1(self, s, env, ys):
+        self.fuel -= 1
+        if self.fuel < 0:
+            raise _Unk('too many statements executed on model values')
+        if isinstance(s, ast.Expr):
+            v = s.value
+            if isinstance(v, ast.Yield):
+                ys.append(self.ev(v.value, env) if v.value is not None else None)
+            elif isinstance(v, ast.YieldFrom):
+                it = self.ev(v.value, env)
+                if not isinstance(it, (list, tuple)):
+                    raise _Unk('yield from something that is not a sequence')
+                ys.extend(it)
+            elif isinstance(v, ast.Call) and isinstance(v.func, ast.Attribute) and v.func.attr in self._LIST_OPS:
+                recv = self.ev(v.func.value, env)
+                if isinstance(recv, list):
+                    if ys is not None and not isinstance(v.func.value, ast.Name):
+                        raise _Unk(f'a generator that changes {canon(v.func.value)[:40]} in place')
+                    pos = [self.ev(a, env) for a in v.args]
+                    if v.keywords or any(isinstance(a, ast.Starred) for a in v.args) or v.func.attr == 'sort' and \
+                            not all(isinstance(x, (int, float)) for x in recv):
+                        raise _Unk(f'{canon(v)[:50]}')
+                    try:
+                        getattr(recv, v.func.attr)(*pos)
+                    except (IndexError, ValueError):
+                        raise _Raised(f'{v.func.attr} on a sequence') from None
+                    except TypeError:
+                        raise _Unk(f'{canon(v)[:50]}') from None
+                else:
+                    self.ev(v, env)
+            elif not isinstance(v, ast.Constant):
+                self.ev(v, env)
+            return None
+        if isinstance(s, ast.Assign):
+            val = self.ev(s.value, env)
+            for t in s.targets:
+                self._store(t, val, env, ys)
+            return None
+        if isinstance(s, ast.AnnAssign):
+            if s.value is not None:
+                self._store(s.target, self.ev(s.value, env), env, ys)
+            return None
+        if isinstance(s, ast.AugAssign):
+            load = copy.deepcopy(s.target)
+            load.ctx = ast.Load()
+            cur = self.ev(load, env)
+            if isinstance(cur, list):
+                if not isinstance(s.op, ast.Add) or (ys is not None and not isinstance(s.target, ast.Name)):
+                    raise _Unk(f'{canon(s)[:50]}')
+                more = self.ev(s.value, env)
+                if not isinstance(more, (list, tuple)):
+                    raise _Unk(f'{canon(s)[:50]}')
+                cur.extend(more)
+                return None
+            self._store(s.target, self.ev(ast.BinOp(left=load, op=s.op, right=s.value), env), env, ys)
+            return None
+        if isinstance(s, (ast.For, ast.While)):
+            if isinstance(s, ast.For):
+                it = self.ev(s.iter, env)
+                if isinstance(it, dict):
+                    it = list(it)
+                if not isinstance(it, (list, tuple)):
+                    raise _Unk(f'loop over {canon(s.iter)[:40]}, which is not a sequence in the model')
+                items = iter(list(it))
+            broke = False
+            while True:
+                if isinstance(s, ast.For):
+                    try:
+                        self._store(s.target, next(items), env, ys)
+                    except StopIteration:
+                        break
+                elif not self.ev(s.test, env):
+                    break
+                self.fuel -= 1
+                if self.fuel < 0:
+                    raise _Unk('too many statements executed on model values')
+                r = self._exec(s.body, env, ys)
+                if r is not None:
+                    if r[0] == 'break':
+                        broke = True
+                        break
+                    if r[0] != 'continue':
+                        return r
+            if not broke and s.orelse:
+                return self._exec(s.orelse, env, ys)
+            return None
+        if isinstance(s, ast.If):
+            return self._exec(s.body if self.ev(s.test, env) else s.orelse, env, ys)
+        if isinstance(s, ast.Try):
+            try:
+                r = self._exec(s.body, env, ys)
+            except _Raised:
+                if s.handlers:
+                    raise _Unk('an exception that meets a handler') from None
+                self._exec(s.finalbody, env, ys)
+                raise
+            if r is None and s.orelse:
+                r = self._exec(s.orelse, env, ys)
+            rf = self._exec(s.finalbody, env, ys)
+            return rf if rf is not None else r
+        if isinstance(s, ast.With) and all(it.optional_vars is None for it in s.items):
+            # (as the engine has it: a context manager that binds nothing does not change what its body computes)
+            return self._exec(s.body, env, ys)
+        if isinstance(s, ast.Return):
+            return ('return', self.ev(s.value, env) if s.value is not None else None)
+        if isinstance(s, ast.Raise):
+            raise _Raised(canon(s.exc)[:80] if s.exc is not None else 're-raise')
+        if isinstance(s, ast.Assert):
+            if not self.ev(s.test, env):
+                raise _Raised('AssertionError')
+            return None
+        if isinstance(s, ast.Break):
+            return ('break', None)
+        if isinstance(s, ast.Continue):
+            return ('continue', None)
+        if isinstance(s, (ast.Pass, ast.Import, ast.ImportFrom)):
+            return None
+        raise _Unk(f'statement {type(s).__name__}')
 
     def select(self, outs, env, fi):
         """the one path whose condition holds on the model values"""
@@ -931,7 +1273,12 @@ class _World:
         if isinstance(n, ast.Name):
             if n.id in env:
                 return env[n.id]
+            if self.frame_fi is not None and n.id in self.frame_fi.module.constants:
+                return self.ev(self.frame_fi.module.constants[n.id], {})
             raise _Unk(f'name {n.id}')
+        if isinstance(n, ast.NamedExpr) and isinstance(n.target, ast.Name):
+            env[n.target.id] = self.ev(n.value, env)
+            return env[n.target.id]
         if isinstance(n, ast.Attribute):
             d = dotted_name(n)
             if d in _LIB_CONST:
@@ -970,6 +1317,8 @@ class _World:
             except IndexError:
                 raise _Raised('IndexError') from None
         if isinstance(n, ast.Call):
+            if id(n) in self.call_memo:
+                return self.call_memo[id(n)]
             return self.call(n, env)
         if isinstance(n, ast.BoolOp):
             r = None
@@ -1110,6 +1459,34 @@ class _World:
         tail0 = (dotted_name(f) or '').split('.')[-1]
         if tail0 == 'cast' and len(n.args) == 2 and not n.keywords:
             return self.ev(n.args[1], env)
+        if tail0 == 'next' and isinstance(f, ast.Name) and 1 <= len(n.args) <= 2 and not n.keywords and (
+                isinstance(n.args[0], ast.GeneratorExp) or (isinstance(n.args[0], ast.Call) and canon(n.args[0].func) == 'iter'
+                                                            and len(n.args[0].args) == 1 and not n.args[0].keywords)):
+            # the first element of an iterator made on the spot (an iterator kept in a variable is not modelled)
+            src = n.args[0] if isinstance(n.args[0], ast.GeneratorExp) else n.args[0].args[0]
+            if isinstance(src, ast.GeneratorExp) and len(src.generators) == 1 and not src.generators[0].is_async:
+                # lazily: the elements after the first hit are not evaluated (they may not be evaluable)
+                g = src.generators[0]
+                it = self.ev(g.iter, env)
+                if not isinstance(it, (list, tuple)):
+                    raise _Unk('iteration over a non-sequence')
+                for item in it:
+                    e2 = dict(env)
+                    self.bind(g.target, item, e2)
+                    if all(self.ev(c, e2) for c in g.ifs):
+                        return self.ev(src.elt, e2)
+                seq = []
+            else:
+                seq = self.ev(src, env)
+                if isinstance(seq, dict):
+                    seq = list(seq)
+                if not isinstance(seq, (list, tuple)):
+                    raise _Unk('next() of something that is not a sequence in the model')
+            if seq:
+                return seq[0]
+            if len(n.args) == 2:
+                return self.ev(n.args[1], env)
+            raise _Raised('StopIteration')
         if tail0 == 'isinstance' and len(n.args) == 2 and not n.keywords:
             return self.isinstance_(self.ev(n.args[0], env), n.args[1])
         pos = []
@@ -1127,7 +1504,8 @@ class _World:
                 raise _Unk(f'geodesic call {canon(n)[:60]}')
             res = _vectorised(_inv1 if f.attr == 'inv' else _fwd1, args)
             if not self.quiet:
-                self.log.append((f.attr, args, self.node_event.get(id(n)), res))
+                self.log.append((f.attr, args, self.node_event.get(id(n)) or
+                                 (_Site(self.frame_fi, n) if self.frame_fi is not None else None), res))
             return res
         k = self.ctor_class(n)
         if k is not None:
@@ -1170,6 +1548,19 @@ class _World:
                 raise
             except (TypeError, ValueError, IndexError, ZeroDivisionError) as ex:
                 raise _Unk(f'{tail}: {ex}') from None
+        # a call the engine left as it is: a generator function, a function it would not inline, or (in a function
+        # executed statement by statement) any call of the program: resolved where the function under evaluation is written
+        for fi_ in ([self.frame_fi] if self.frame_fi is not None else []) + list(reversed(self.stack)):
+            if isinstance(f, ast.Name) and f.id in env:
+                break
+            kc = resolve_class_call(self.prog, fi_, n) if isinstance(f, (ast.Name, ast.Attribute)) else None
+            if kc is None and isinstance(f, ast.Name) and f.id == 'cls' and fi_ is self.frame_fi and isinstance(env.get('cls'), _Obj):
+                kc = env['cls'].k
+            if kc is not None:
+                return self.construct(kc, pos, kw)
+            callee = resolve_call(self.prog, fi_, n)
+            if callee is not None and callee.cls is None and '<locals>' not in callee.qualname:
+                return self.invoke(callee, None, None, pos, kw)
         raise _Unk(f'call of {canon(f)[:50]}')
 
 
@@ -1454,6 +1845,20 @@ def rule_queries(ctx, covered: set):
                     f'the sample tracks exercise negative and positive raw azimuths ({stats["raw_negative"]} / {stats["raw_positive"]})')
 
 
+def _partial_sum(t, i, v) -> str:
+    """what a wrong cumulative distance of way-point i is the sum of, when that is recognised"""
+    if not isinstance(v, (int, float)) or isinstance(v, bool):
+        return ''
+    for j in range(1, i):
+        if t.L[j - 1] > 0 and _same(v, sum(t.L[j:i])):
+            return (f' — {v:g} is the sum of leg(s) {list(range(j, i))} only: the running distance carried from one leg to the next '
+                    f'loses the legs before leg {j} (it is set to a leg length where it has to be increased by it)')
+    for j in range(1, i):
+        if t.L[j] > 0 and _same(v, sum(t.L[:j])):
+            return f' — {v:g} is the sum of leg(s) {list(range(j))} only: the legs from leg {j} on are not added'
+    return ''
+
+
 def _sample_queries(ctx, world, gtc, loc_cls, lonf, latf, need, opt, init, query, point, judge_point, J):
     for coords in _TRACKS:
         n = len(coords)
@@ -1486,14 +1891,16 @@ def _sample_queries(ctx, world, gtc, loc_cls, lonf, latf, need, opt, init, query
                 k_, v, _ = query(t, 'total_distance')
                 J('C15-R6', opt['total_distance'], 'total distance is the sum of the leg lengths (component [2] of the '
                   'inverse geodesic over consecutive way-points)', k_ == 'ret' and _same(v, total),
-                  'last value of the running sum from 0', f'a track with legs {t.L} reports total distance {v!r}')
+                  'last value of the running sum from 0', f'a track with legs {t.L} reports total distance {v!r}'
+                  + (_partial_sum(t, n - 1, v) if k_ == 'ret' else ''))
             if opt['waypoint_distance'] is not None:
                 for i in range(n):
                     k_, v, _ = query(t, 'waypoint_distance', i)
                     J('C15-R6', opt['waypoint_distance'], 'cumulative distance of way-point i is the sum of the legs before it, '
                       'starting at 0', k_ == 'ret' and _same(v, t.idx[i]), 'running sum of leg lengths from 0',
                       f'way-point {i} of a track with legs {t.L} is reported at {v!r}: the cumulative index does not start at 0 '
-                      'with the summed leg lengths, every leg is interpolated from the wrong origin')
+                      'with the summed leg lengths, every leg is interpolated from the wrong origin'
+                      + (_partial_sum(t, i, v) if k_ == 'ret' else ''))
             if opt['lookup_waypoint'] is not None:
                 fi = opt['lookup_waypoint']
                 for d in inside:
